@@ -204,6 +204,13 @@ func genC08(seed int64, tier string) *Scenario {
 				sc.Ops = append(sc.Ops, Op{Kind: "clear", Path: n}, Op{Kind: "deliver"}, Op{Kind: "check"})
 				continue
 			}
+			if r.Intn(3) == 0 {
+				// overtype: a range replaced by text of the same length (the buffer keeps its size),
+				// then look at what the client holds
+				col := r.Intn(4)
+				sc.Ops = append(sc.Ops, Op{Kind: "change", Path: n, Edits: []Edit{{Start: Pos{0, col}, End: Pos{0, col + 1}, Text: []string{"(", "=", "x", " "}[r.Intn(4)]}}}, Op{Kind: "deliver"}, Op{Kind: "check"})
+				continue
+			}
 			sc.Ops = append(sc.Ops, Op{Kind: "change", Path: n, Edits: []Edit{{Start: Pos{0, 0}, End: Pos{0, 0}, Text: []string{"local z = \n", "print(1)\n", "(", "-- c\n"}[r.Intn(4)]}}})
 		case k < 16:
 			if !open[n] {
